@@ -27,7 +27,10 @@ impl UndoRegisterCallee {
     }
 
     /// Don't undo the registration when dropped.
-    pub fn defuse(mut self) { self.defused = true; }
+    pub fn defuse(mut self) {
+        self.defused = true;
+        self.query_computing.keep_callee(&self.callee_target);
+    }
 }
 
 impl Drop for UndoRegisterCallee {
